@@ -16,11 +16,9 @@ def convert_to_list(item: Union[Any, List[Any]]) -> List[Any]:
 
 
 def regex_from_cf_string(action: str) -> Pattern:
-    # Replace *
-    action = action.replace("*", ".*")
-
-    # Replace ?
-    action = action.replace("?", ".{1}")
+    # `*` and `?` are the only wildcards, any other character is a literal
+    wildcards = {"*": ".*", "?": ".{1}"}
+    action = "".join(wildcards.get(char) or re.escape(char) for char in action)
 
     return re.compile(f"^{action}$", re.IGNORECASE)
 
